@@ -141,6 +141,10 @@ fn body<const B: usize, const L: usize>(c: &Case, rec: &mut Rec) -> R {
     chk!(rec, "saturating_mul", a.saturating_mul(b), if of { max } else { w });
     chk!(rec, "mul", a * b, w);
     chk!(rec, "mul_assign", { let mut x = a; x *= b; x }, w);
+    chk!(rec, "mul(&,val)", &a * b, w);
+    chk!(rec, "mul(val,&)", a * &b, w);
+    chk!(rec, "mul(&,&)", &a * &b, w);
+    chk!(rec, "mul_assign(&)", { let mut x = a; x *= &b; x }, w);
 
     // ---- inv_ring
     let r = rec.no_panic("inv_ring", catch(|| a.inv_ring()))?;
@@ -167,6 +171,13 @@ fn body<const B: usize, const L: usize>(c: &Case, rec: &mut Rec) -> R {
     let prod_e: U<B, L> = mkb(&(&total % &m));
     chk!(rec, "product_by_value", items.iter().copied().product::<U<B, L>>(), prod_e);
     chk!(rec, "product_by_ref", items.iter().product::<U<B, L>>(), prod_e);
+    // iterator shapes whose size_hint is not exact (lower bound 0), chained and owned iterators
+    chk!(rec, "product(filter)", items.iter().filter(|_| true).product::<U<B, L>>(), prod_e);
+    chk!(rec, "product(filter,by_value)", items.iter().copied().filter(|_| true).product::<U<B, L>>(), prod_e);
+    chk!(rec, "product(from_fn)", { let mut it = items.iter().copied(); core::iter::from_fn(move || it.next()).product::<U<B, L>>() }, prod_e);
+    chk!(rec, "product(chain)", items[..1].iter().chain(items[1..].iter()).product::<U<B, L>>(), prod_e);
+    chk!(rec, "product(into_iter)", items.clone().into_iter().product::<U<B, L>>(), prod_e);
+    chk!(rec, "product(rev)", items.iter().rev().product::<U<B, L>>(), prod_e);
     let empty: Vec<U<B, L>> = vec![];
     let one: U<B, L> = mkb(&(BigUint::one() % &m));
     chk!(rec, "product_empty", empty.iter().product::<U<B, L>>(), one);
@@ -222,7 +233,7 @@ macro_rules! reg_wide {
 fn main() {
     let spec = PropSpec {
         id: "C02",
-        rule_text: "operand pairs per width from 4 generator classes (independent values with prescribed zero-limb shapes: zero low / high / middle limbs, single bits, 2^k+-1, boundary alphabet; boundary products 2^i * (2^(BITS-i)+{-1,0,1}); a*b within +-1 of 2^BITS by construction b=floor|ceil((2^BITS+d)/a); (MAX/k)*k) plus extra values for iterator products; widening_mul over a grid of 24 (BITS,BITS_RHS) pairs; exhaustive enumeration of all pairs for BITS <= 8. Oracle: num-bigint a*b, mod 2^BITS, exact overflow predicate; inv_ring validity a*x = 1 mod 2^BITS with x canonical, Some iff a odd and BITS>0. Non-trivial: both operands non-zero and (an operand has a zero limb at either end or in the middle, or the product overflows, or the product is wider than one limb); distinct by (rule,width,a,b).",
+        rule_text: "operand pairs per width from 4 generator classes (independent values with prescribed zero-limb shapes: zero low / high / middle limbs, single bits, 2^k+-1, boundary alphabet; boundary products 2^i * (2^(BITS-i)+{-1,0,1}); a*b within +-1 of 2^BITS by construction b=floor|ceil((2^BITS+d)/a); (MAX/k)*k) plus extra values for iterator products (slice, copied, filter, from_fn, chain, into_iter, rev iterators); * through all six operator shapes; widening_mul over a grid of 24 (BITS,BITS_RHS) pairs; exhaustive enumeration of all pairs for BITS <= 8. Oracle: num-bigint a*b, mod 2^BITS, exact overflow predicate; inv_ring validity a*x = 1 mod 2^BITS with x canonical, Some iff a odd and BITS>0. Non-trivial: both operands non-zero and (an operand has a zero limb at either end or in the middle, or the product overflows, or the product is wider than one limb); distinct by (rule,width,a,b).",
         assumptions: vec![
             "num-bigint arithmetic is correct (oracle)",
             "x86-64 little-endian target; fixed width grid and fixed (BITS,BITS_RHS) pair grid",
